@@ -308,6 +308,21 @@ func (m *C10) checkLaunched(w *world.World, r *world.StepResult, id string) *Vio
 	if len(gen.Provider.InitialValSet) == 0 {
 		return violf(P, "launch-empty-set", "launched consumer %s has an empty initial validator set", id)
 	}
+	// the initial set contains an active provider validator (the launch runs in BeginBlock on the consensus set
+	// recorded at the end of the previous block, which is replaced at the end of this one: either counts)
+	if r.Block.Height%k.GetBlocksPerEpoch(ctx) != 0 {
+		post := takeEligSnap(w)
+		hasActive := false
+		for _, cv := range w.ConsumerRecordedSet(id) {
+			if m.pre.active[cv.ProvAddr] || post.active[cv.ProvAddr] {
+				hasActive = true
+			}
+		}
+		if !hasActive {
+			return violf(P, "launch-without-active-validator", "consumer %s was launched although its initial validator set contains no validator of the provider's consensus set", id)
+		}
+		w.Label("launch-has-active-validator")
+	}
 	bpe := k.GetBlocksPerEpoch(ctx)
 	if r.Block.Height%bpe != 0 {
 		stored := cvMap(w.ConsumerRecordedSet(id))
